@@ -69,6 +69,22 @@ def lean_status(fname, force=False):
     return ok, 'lean-4.33', time.time() - t0
 
 
+def tree_sha(repo):
+    """hash of the library sources (tests excluded): tells a changed tree from the pinned one the ledger was recorded on"""
+    import hashlib
+    h = hashlib.sha256()
+    root = os.path.join(repo, 'localcider')
+    for d, dirs, files in sorted(os.walk(root)):
+        dirs.sort()
+        if os.sep + 'tests' in d:
+            continue
+        for f in sorted(files):
+            if f.endswith('.py'):
+                h.update(os.path.relpath(os.path.join(d, f), repo).encode())
+                h.update(open(os.path.join(d, f), 'rb').read())
+    return h.hexdigest()[:16]
+
+
 def main():
     ap = argparse.ArgumentParser()
     ap.add_argument('prop')
@@ -113,7 +129,8 @@ def main():
             from pyvc.driver import Verifier
             v = Verifier(REPO)
             tmo = 20000 if tier == 'quick' else 60000
-            results, reports, tg = v.run(cfg.get('functions', []), cfg.get('lemmas', []), timeout_ms=tmo, extra=cfg.get('extra', []))
+            results, reports, tg = v.run(list(cfg.get('functions', [])) + (list(cfg.get('thorough_functions', [])) if tier == 'thorough' else []),
+                                         cfg.get('lemmas', []), timeout_ms=tmo, extra=cfg.get('extra', []))
             ded['gen_time'] = tg
             for r in reports:
                 ded['functions'].append(dict(function=r.key, source_sha=r.sha, paths=r.paths, seconds=round(r.time, 2)))
@@ -158,8 +175,10 @@ def main():
             problems.append('vacuity: `False` is provable at every normal exit of %s (contradictory precondition or unsound encoding)' % f)
     if (cfg.get('functions') or cfg.get('lemmas')) and ded['obligations'] == 0 and not problems:
         problems.append('zero obligations generated')
+    tree_now = tree_sha(REPO)
     if a.update_ledger:
         ledger[pid] = {n: vs.count('proved') for n, vs in names.items() if all(x == 'proved' for x in vs)}
+        ledger.setdefault('__tree__', {})[pid] = tree_now
         json.dump(ledger, open(ledger_path, 'w'), indent=0, sort_keys=True)
         print('ledger updated: %d obligation names proved for %s' % (len(ledger[pid]), pid))
     # ------------------------------------------------------------ native bounded part
@@ -209,6 +228,19 @@ def main():
         print('VIOLATION property=%s replay=%s no-failing-input-found' % (pid, replay_path))
         for f in cands[:5]:
             print('  refuted obligation: %s  clause: %s' % (f['obligation'], f.get('clause')))
+        exit_code = 1
+    elif failed_led and ledger.get('__tree__', {}).get(pid) not in (None, tree_now):
+        # obligations that were discharged on the pinned tree are no longer discharged and the library source differs from that tree:
+        # reported as the violation (no counterexample: the solver's verdict is attached), as the brief prescribes
+        replay_path = os.path.join(RPD, '%s_%s_%d.json' % (pid, tier, seed))
+        json.dump(dict(property=pid, kind='obligation', failures=[dict(check='obligation:' + f['obligation'], input=None,
+                       message='obligation (clause: %s) was discharged on the pinned tree and is no longer discharged on this tree: solver verdict %s%s; '
+                               'no failing real input found in the bounded native domain' % (f.get('clause'), f['verdict'], (' (' + f['error'] + ')') if f.get('error') else ''))
+                       for f in failed_led[:10]], failed_obligations=ded['failed'][:20],
+                       pinned_tree=ledger['__tree__'][pid], this_tree=tree_now), open(replay_path, 'w'), indent=1, default=str)
+        print('VIOLATION property=%s replay=%s no-failing-input-found' % (pid, replay_path))
+        for f in failed_led[:5]:
+            print('  failed obligation (discharged on the pinned tree): %s  verdict: %s  clause: %s' % (f['obligation'], f['verdict'], f.get('clause')))
         exit_code = 1
     elif ded['failed'] or ded['out_of_subset']:
         for f in ded['failed'][:10]:
